@@ -283,6 +283,8 @@ def gen_cases(rng, tier):
     small = [None, 'UNITLESS', 'KM', 'M', 'S', 'DEG', ['*', 'M', 'M'], ['/', 'KM', 'S'], 'STER'] + \
         [gen_unit(rng) for _ in range(10 if thorough else 2)]
     for (oname, spec) in OBJ_OPS.items():
+        if spec.get('poly'):
+            continue
         for cls in spec['classes']:
             for shape in spec.get('shapes', [[], [2]]):
                 if spec['arity'] == 2:
@@ -295,7 +297,7 @@ def gen_cases(rng, tier):
                         add(op='rule', oname=oname, cls=cls, shape=shape, a=ua, b=ub, p=p)
     # ---- histories: build an object with derivatives, touch its cached views, change its units, then operate on
     #      the object and on its .wod (the unit-aware catalogue, judged on the units the history gave it)
-    hist_ops = [o for o in OBJ_OPS if o not in ('from_scalars', 'arctan2')]
+    hist_ops = [o for o in OBJ_OPS if o not in ('from_scalars', 'arctan2') and not OBJ_OPS[o].get('poly')]
     same_dim = {'KM': ['M', 'MICRON', 'KM'], 'M': ['KM', 'CM'], 'S': ['MIN', 'MSEC'], 'DEG': ['RAD', 'ARCSEC', 'CYCLES'],
                 'RAD': ['DEG'], 'UNITLESS': ['UNITLESS']}
     nhist = 40000 if thorough else 9000
@@ -382,6 +384,27 @@ def gen_cases(rng, tier):
                 for dt in itertools.product('ifb' if fn != 'stack:Pair' else 'if', repeat=n):
                     add(op='nary', fn=fn, us=list(us), shape=rng.choice([[], [2]]),
                         plain=[rng.random() < 0.3 for _ in us], dt=''.join(dt))
+    # ---- Polynomial (a Vector subclass that allows units): operands of DIFFERENT order, units on either operand;
+    #      at_least_order / set_order / deriv keep the units
+    punits = [None, 'UNITLESS', 'KM', 'M', 'S', 'DEG', ['/', 'KM', 'S'], ['/', 'KM', 'M']] + [gen_unit(rng) for _ in range(2)]
+    for (oname, spec) in OBJ_OPS.items():
+        if not spec.get('poly'):
+            continue
+        for (na, nb) in ((1, 1), (1, 2), (2, 1), (1, 3), (3, 1), (2, 3), (3, 2)):
+            for ua in punits:
+                for ub in (punits if spec['arity'] == 2 else [None]):
+                    if spec['arity'] == 1 and oname != 'poly_deriv' and nb < na:
+                        continue
+                    if spec.get('inplace') and nb > na:
+                        continue            # the order of a Polynomial cannot grow in place (ValueError, not a units matter)
+                    add(op='rule', oname=oname, cls='Polynomial', shape=rng.choice([[], [2]]), a=ua, b=ub, p=None, na=na, nb=nb)
+    # classes that disallow units: in-place operators by a Scalar whose units are None / UNITLESS / a dimensionless
+    # ratio with or without a factor / ordinary
+    for cls in NO_UNITS:
+        for u in [None, 'UNITLESS', ['/', 'KM', 'KM'], ['/', 'KM', 'M'], ['/', 'DEG', 'RAD'], ['/', 'S', 'MIN'], 'KM', 'DEG',
+                  ['/', 'KM', 'S']]:
+            for how in INPLACE_NO_UNITS:
+                add(op='set', how=how, cls=cls, shape=rng.choice([[], [2]]), cur=None, new=u)
     # classes that disallow units
     for cls in NO_UNITS:
         for u in [None, 'UNITLESS', 'KM', 'DEG', ['/', 'KM', 'S']]:
